@@ -603,7 +603,7 @@ Section Live.
       what came after it; everything falls silent; the sender's timer fires and the whole window
       goes out again - a synchronisation point at which the receiver already holds [g] blocks. *)
   Lemma gap_recovery : forall s r a stale hist n1 n2 g, SS s a 0 -> RS hist r a 0 -> N.of_nat g < wlen s ->
-    clean_from f_sr n1 -> clean_from f_rs n2 ->
+    clean f_sr n1 (n1 + wlen s) -> clean_from f_rs n2 ->
     exists fuel s' r' hist' n2',
       run fuel (mk_pair s r (mk_chan (datas (a + 1) g ++ datas (a + N.of_nat g + 2) (N.to_nat (wlen s) - g - 1)) None n1)
                         (mk_chan (repeat (ack_dgram a) stale) None n2)) =
@@ -640,7 +640,8 @@ Section Live.
     split; [|split; [exact Hss4|split; [exact Hrs2|split; [rewrite Hl4, Hl3; exact Hg|lia]]]].
     rewrite (run_add (g + rest + (stale + extra)) 1), (run_add (g + rest) (stale + extra)), (run_add g rest).
     rewrite Hrun1, Hrun2, Hrun3. cbn [pair_run]. rewrite step_tmo by apply Hss3. rewrite E4. cbn [fst snd].
-    rewrite Hout4. unfold sync_state. rewrite chan_puts_clean by (intros i Hi; apply Hc1; lia).
+    rewrite Hout4. unfold sync_state.
+    rewrite chan_puts_clean by (intros i Hi; apply Hc1; unfold lenN in Hi; rewrite datas_length, N2Nat.id in Hi; rewrite Hl3 in Hi; fold m; lia).
     cbn [app repeat]. unfold lenN. rewrite datas_length, N2Nat.id, Hl4. reflexivity.
   Qed.
 
@@ -679,6 +680,79 @@ Section Live.
         destruct (IH s' r' (a + wlen s) hist' (n1 + wlen s) (n2 + 1) i ltac:(lia) Hss' Hrs' (conj Hd Hother))
           as (fuel2 & Hfin); [intros j Hj; apply Hc2; lia|lia|].
         exists (fuel1 + fuel2)%nat. rewrite run_add, Hrun1. exact Hfin.
+  Qed.
+
+  (** ** Several lost DATA datagrams, no two of them close together *)
+
+  (** The indices of the lost datagrams, in increasing order, any two more than [d] apart, none below [lo]. *)
+  Fixpoint spaced (d lo : N) (is : list N) : Prop :=
+    match is with
+    | [] => True
+    | i :: r => lo <= i /\ spaced d (i + d + 1) r
+    end.
+
+  Lemma spaced_weaken : forall d is lo lo', lo' <= lo -> spaced d lo is -> spaced d lo' is.
+  Proof. intros d is. destruct is as [|i r]; intros lo lo' H Hs; cbn [spaced] in *; [exact I|]. destruct Hs. split; [lia|assumption]. Qed.
+
+  Lemma spaced_ge : forall d is lo k, spaced d lo is -> In k is -> lo <= k.
+  Proof.
+    intros d is. induction is as [|i r IH]; intros lo k Hs Hin; [contradiction|]. cbn [spaced] in Hs. destruct Hs as [Hlo Hr].
+    destruct Hin as [->|Hin]; [exact Hlo|]. specialize (IH _ _ Hr Hin). lia.
+  Qed.
+
+  (** From index [lo] on, exactly the datagrams with an index in [is] are lost. *)
+  Definition drops_from (fs : list (N * fault)) (lo : N) (is : list N) : Prop :=
+    forall k, lo <= k -> (In k is -> fault_at fs k = NfDrop) /\ (~ In k is -> fault_at fs k = NfDeliver).
+
+  Lemma data_drops_from_emit : forall k is s r a hist n1 n2, nb - a <= N.of_nat k ->
+    SS s a 0 -> RS hist r a 0 -> drops_from f_sr n1 is -> spaced (2 * ws) n1 is -> clean_from f_rs n2 ->
+    exists fuel, Final (run fuel (emit_state s r a n1 n2 0)).
+  Proof.
+    intros k. induction k as [|k IH]; intros is s r a hist n1 n2 Hk Hss Hrs Hd Hsp Hc2;
+      pose proof (SS_len _ _ _ Hss) as (Ha & Hlen & Hpos); [lia|].
+    assert (Hrs0 : RS hist r (a + 0) 0) by (replace (a + 0) with a by lia; exact Hrs).
+    pose proof Hwf as (_ & _ & Hw).
+    (* is the next loss inside this window? *)
+    assert (Hcase : (exists i rest, is = i :: rest /\ i < n1 + wlen s) \/ (forall j, In j is -> n1 + wlen s <= j)).
+    { destruct is as [|i rest]; [right; intros j []|]. destruct (N.lt_ge_cases i (n1 + wlen s)) as [Hin|Hout].
+      - left. exists i, rest. split; [reflexivity|exact Hin].
+      - right. intros j Hj. cbn [spaced] in Hsp. destruct Hsp as [_ Hr]. destruct Hj as [<-|Hj]; [exact Hout|].
+        pose proof (spaced_ge _ _ _ _ Hr Hj). lia. }
+    destruct Hcase as [(i & rest & -> & Hin)|Hfar].
+    - cbn [spaced] in Hsp. destruct Hsp as [Hlo Hrest]. set (g := N.to_nat (i - n1)).
+      assert (Hnot : forall j, n1 <= j -> j <> i -> j < i + 2 * ws + 1 -> fault_at f_sr j = NfDeliver).
+      { intros j Hge Hne Hj. apply (proj2 (Hd j Hge)). intros [E|Hjr]; [congruence|]. pose proof (spaced_ge _ _ _ _ Hrest Hjr). lia. }
+      rewrite (emit_gap s r a n1 n2 O g) by
+        (try (unfold g; lia); try (replace (n1 + N.of_nat g) with i by (unfold g; lia); apply (proj1 (Hd i Hlo)); left; reflexivity);
+         intros j Hj; apply Hnot; unfold g in Hj; lia).
+      destruct (gap_recovery s r a O hist (n1 + wlen s) n2 g Hss Hrs ltac:(unfold g; lia)) as
+        (fuel1 & s' & r' & hist' & n2' & Hrun1 & Hss' & Hrs' & Hg' & Hn2'); try assumption.
+      { intros j Hj. apply Hnot; lia. }
+      pose proof (SS_len _ _ _ Hss') as (_ & Hlen' & _).
+      (* the window goes through on the second attempt; the later losses are still ahead *)
+      destruct (round_gen s' r' a 1 (N.of_nat g) O hist' (n1 + wlen s + wlen s') n2' Hss' Hrs' Hg' ltac:(apply Hc2; lia))
+        as (fuel2 & p' & Hrun2 & Hres).
+      destruct (N.eqb_spec (a + wlen s') nb) as [Hlast|Hnot2].
+      + exists (fuel1 + fuel2)%nat. rewrite run_add, Hrun1, Hrun2. exact Hres.
+      + destruct Hres as (s2 & r2 & hist2 & -> & Hss2 & Hrs2).
+        destruct (IH rest s2 r2 (a + wlen s') hist2 (n1 + wlen s + wlen s') (n2' + 1) ltac:(lia) Hss2 Hrs2) as (fuel3 & Hfin).
+        * intros j Hge. assert (Hji : j <> i) by lia. destruct (Hd j ltac:(lia)) as [D1 D2]. split.
+          -- intros Hj. apply D1. right. exact Hj.
+          -- intros Hj. apply D2. intros [E|Hjr]; [congruence|contradiction].
+        * eapply spaced_weaken; [|exact Hrest]. lia.
+        * intros j Hj. apply Hc2. lia.
+        * exists (fuel1 + (fuel2 + fuel3))%nat. rewrite run_add, Hrun1, run_add, Hrun2. exact Hfin.
+    - rewrite emit_clean by (intros j Hj; apply (proj2 (Hd j ltac:(lia))); intros Hjn; specialize (Hfar _ Hjn); lia).
+      destruct (round_gen s r a 0 0 O hist (n1 + wlen s) n2 Hss Hrs0 ltac:(lia) ltac:(apply Hc2; lia))
+        as (fuel1 & p' & Hrun1 & Hres).
+      destruct (N.eqb_spec (a + wlen s) nb) as [Hlast|Hnot].
+      + exists fuel1. rewrite Hrun1. exact Hres.
+      + destruct Hres as (s' & r' & hist' & -> & Hss' & Hrs').
+        destruct (IH is s' r' (a + wlen s) hist' (n1 + wlen s) (n2 + 1) ltac:(lia) Hss' Hrs') as (fuel2 & Hfin).
+        * intros j Hge. apply Hd. lia.
+        * destruct is as [|i rest]; [exact I|]. cbn [spaced] in *. destruct Hsp as [_ Hr]. split; [apply Hfar; left; reflexivity|exact Hr].
+        * intros j Hj. apply Hc2. lia.
+        * exists (fuel1 + fuel2)%nat. rewrite run_add, Hrun1. exact Hfin.
   Qed.
 
   (** ** One lost ACK *)
@@ -753,6 +827,89 @@ Section Live.
         destruct (IH s' r' (a + m) hist' (n1 + m) (n2 + 1) i ltac:(lia) Hss' Hrs' (conj Hd Hother))
           as (fuel2 & Hfin); [intros j Hj; apply Hc1; lia|lia|].
         exists (fuel1 + fuel2)%nat. rewrite run_add, Hrun1. exact Hfin.
+  Qed.
+
+  (** ** Several lost ACKs, no two of them close together *)
+
+  Lemma ack_drops_from_sync : forall k is s r a hist n1 n2 stale, nb - a <= N.of_nat k ->
+    SS s a 0 -> RS hist r a 0 -> drops_from f_rs n2 is -> spaced ws n2 is -> clean_from f_sr n1 ->
+    exists fuel, FinalR (run fuel (sync_state s r a n1 n2 stale)) /\
+      (s_phase (p_s (run fuel (sync_state s r a n1 n2 stale))) = SDone OutOk \/
+       In (ch_n (p_rs (run fuel (sync_state s r a n1 n2 stale))) - 1) is).
+  Proof.
+    intros k. induction k as [|k IH]; intros is s r a hist n1 n2 stale Hk Hss Hrs Hd Hsp Hc1;
+      pose proof (SS_len _ _ _ Hss) as (Ha & Hlen & Hpos); [lia|].
+    assert (Hrs0 : RS hist r (a + 0) 0) by (replace (a + 0) with a by lia; exact Hrs).
+    unfold sync_state. set (m := wlen s) in *. pose proof Hwf as (_ & _ & Hw).
+    assert (Hcase : (exists rest, is = n2 :: rest) \/ ~ In n2 is).
+    { destruct is as [|i rest]; [right; intros []|]. cbn [spaced] in Hsp. destruct Hsp as [Hlo Hr].
+      destruct (N.eq_dec i n2) as [->|Hne]; [left; exists rest; reflexivity|].
+      right. intros [E|Hin]; [congruence|]. pose proof (spaced_ge _ _ _ _ Hr Hin). lia. }
+    destruct Hcase as [(rest & ->)|Hnotin].
+    - (* this round's ACK is lost *)
+      cbn [spaced] in Hsp. destruct Hsp as [_ Hrest].
+      assert (Hdrop : fault_at f_rs n2 = NfDrop) by (apply (proj1 (Hd n2 ltac:(lia))); left; reflexivity).
+      assert (Hnext : forall j, n2 < j -> j < n2 + ws + 1 -> fault_at f_rs j = NfDeliver).
+      { intros j H1 H2. apply (proj2 (Hd j ltac:(lia))). intros [E|Hin]; [lia|]. pose proof (spaced_ge _ _ _ _ Hrest Hin). lia. }
+      destruct (half_a s r a 0 0 stale hist n1 n2 [] None Hss Hrs0 ltac:(lia)) as (s1 & r1 & Hrun1 & Hss1 & Hl1 & Hfin1).
+      { rewrite app_nil_r. apply chan_puts_drop. exact Hdrop. }
+      fold m in Hrun1, Hfin1, Hl1.
+      destruct (N.eqb_spec (a + m) nb) as [Hlast|Hnot].
+      + exists (N.to_nat m + stale)%nat. rewrite Hrun1. cbn [p_r p_s p_rs ch_n]. split; [exact Hfin1|right].
+        replace (n2 + 1 - 1) with n2 by lia. left. reflexivity.
+      + destruct Hfin1 as [hist1 Hrs1].
+        destruct (send_retx s1 a 0 Hss1 one_retry) as (s2 & out & E2 & Hss2 & Hl2 & Hout2).
+        replace (a + m) with (a + m + 0) in Hrs1 by lia.
+        destruct (drain_out_seq (N.to_nat m) (a + 1) hist1 r1 (a + m + 0) 0 s2 [] None (n1 + m)
+                    (mk_chan [] None (n2 + 1)) ltac:(replace (a + m + 0) with (a + m) in * by lia; exact Hrs1))
+          as (r2 & hist2 & Hrun3 & Hrs2).
+        { intros j Hj. lia. }
+        rewrite app_nil_r in Hrun3. change (0 =? 0) with true in Hrun3. cbv iota in Hrun3.
+        rewrite chan_puts_clean in Hrun3 by (intros j Hj; unfold lenN in Hj; rewrite repeat_length, N2Nat.id in Hj; apply Hnext; lia).
+        cbn [app] in Hrun3. unfold lenN in Hrun3. rewrite repeat_length, N2Nat.id in Hrun3.
+        replace (a + m + 0) with (a + m) in * by lia.
+        assert (Hrep : repeat (ack_dgram (a + m)) (N.to_nat m) = ack_dgram (a + m) :: repeat (ack_dgram (a + m)) (N.to_nat m - 1)).
+        { replace (N.to_nat m) with (S (N.to_nat m - 1)) at 1 by lia. reflexivity. }
+        rewrite Hrep in Hrun3.
+        assert (Hm2 : wlen s2 = m) by (rewrite Hl2; exact Hl1).
+        destruct (send_ack_window s2 a (0 + 1) Hss2) as (s3 & out3 & E3 & Hres3). rewrite Hm2 in E3, Hres3.
+        destruct (N.eqb_spec (a + m) nb) as [|_]; [contradiction|]. destruct Hres3 as [Hss3 Hout3].
+        pose proof (SS_len _ _ _ Hss3) as (_ & _ & Hpos3).
+        destruct (IH rest s3 r2 (a + m) hist2 (n1 + m + wlen s3) (n2 + 1 + m) (N.to_nat m - 1)%nat ltac:(lia) Hss3 Hrs2)
+          as (fuel4 & Hfin4 & Hor4).
+        * intros j Hge. destruct (Hd j ltac:(lia)) as [D1 D2]. split.
+          -- intros Hj. apply D1. right. exact Hj.
+          -- intros Hj. apply D2. intros [E|Hjr]; [lia|contradiction].
+        * eapply spaced_weaken; [|exact Hrest]. lia.
+        * intros j Hj. apply Hc1. lia.
+        * assert (Hrun : run (N.to_nat m + stale + 1 + N.to_nat m + 1)
+                         (mk_pair s r (mk_chan (datas (a + 1) (N.to_nat m)) None n1) (mk_chan (repeat (ack_dgram a) stale) None n2)) =
+                       sync_state s3 r2 (a + m) (n1 + m + wlen s3) (n2 + 1 + m) (N.to_nat m - 1)).
+          { rewrite (run_add (N.to_nat m + stale + 1 + N.to_nat m) 1), (run_add (N.to_nat m + stale + 1) (N.to_nat m)),
+                    (run_add (N.to_nat m + stale) 1), Hrun1.
+            cbn [pair_run]. rewrite step_tmo by apply Hss1. rewrite E2. cbn [fst snd]. rewrite Hout2, Hl1.
+            rewrite chan_puts_clean by (intros j Hj; apply Hc1; lia). cbn [app]. unfold lenN. rewrite datas_length, N2Nat.id.
+            rewrite Hrun3. rewrite step_send by apply Hss2. rewrite E3. cbn [fst snd]. rewrite Hout3.
+            rewrite chan_puts_clean by (intros j Hj; apply Hc1; lia). cbn [app]. unfold lenN. rewrite datas_length, N2Nat.id.
+            reflexivity. }
+          exists (N.to_nat m + stale + 1 + N.to_nat m + 1 + fuel4)%nat.
+          rewrite (run_add (N.to_nat m + stale + 1 + N.to_nat m + 1) fuel4), Hrun. split; [exact Hfin4|].
+          destruct Hor4 as [Hok|Hin]; [left; exact Hok|right; right; exact Hin].
+    - (* this round's ACK arrives *)
+      assert (Hdel : fault_at f_rs n2 = NfDeliver) by (apply (proj2 (Hd n2 ltac:(lia))); exact Hnotin).
+      destruct (round_gen s r a 0 0 stale hist n1 n2 Hss Hrs0 ltac:(lia) Hdel) as (fuel1 & p' & Hrun1 & Hres).
+      fold m in Hres. unfold sync_state in Hrun1. fold m in Hrun1.
+      destruct (N.eqb_spec (a + m) nb) as [Hlast|Hnot].
+      + exists fuel1. rewrite Hrun1. destruct Hres as (Hf1 & Hf2 & Hf3). split; [split; assumption|left; exact Hf3].
+      + destruct Hres as (s' & r' & hist' & Hp' & Hss' & Hrs').
+        pose proof (SS_len _ _ _ Hss') as (_ & _ & Hpos').
+        rewrite Hp', emit_clean in Hrun1 by (intros j Hj; apply Hc1; lia).
+        destruct (IH is s' r' (a + m) hist' (n1 + wlen s') (n2 + 1) O ltac:(lia) Hss' Hrs') as (fuel2 & Hfin).
+        * intros j Hge. apply Hd. lia.
+        * destruct is as [|i rest]; [exact I|]. cbn [spaced] in *. destruct Hsp as [Hlo Hr]. split; [|exact Hr].
+          destruct (N.eq_dec i n2) as [->|]; [exfalso; apply Hnotin; left; reflexivity|lia].
+        * intros j Hj. apply Hc1. lia.
+        * exists (fuel1 + fuel2)%nat. rewrite run_add, Hrun1. exact Hfin.
   Qed.
 
   (** ** One duplicated datagram *)
@@ -1449,6 +1606,51 @@ Section Live.
     - apply single_one_hold.
     - apply nil_clean.
     - exists fuel. cbv zeta. split; [exact H1|]. split; [exact H2|exact H3].
+  Qed.
+
+  Lemma fault_at_drops : forall is k,
+    (In k is -> fault_at (map (fun i => (i, NfDrop)) is) k = NfDrop) /\
+    (~ In k is -> fault_at (map (fun i => (i, NfDrop)) is) k = NfDeliver).
+  Proof.
+    intros is k. induction is as [|i r [IH1 IH2]]; cbn [map fault_at In]; [split; [intros []|reflexivity]|].
+    destruct (N.eqb_spec i k) as [->|Hne]; split; intros H; try reflexivity.
+    - exfalso. apply H. left. reflexivity.
+    - destruct H as [E|H]; [congruence|apply IH1; exact H].
+    - apply IH2. intros Hin. apply H. right. exact Hin.
+  Qed.
+
+  (** Any number of lost DATA datagrams, as long as any two of them are more than two windows of
+      datagrams apart (so that no window is hit twice, nor its retransmission): both sides complete. *)
+  Theorem cosim_data_drops : forall is, spaced (2 * ws) 0 is -> exists fuel,
+    let f := map (fun i => (i, NfDrop)) is in
+    let p := pair_run sc rc f [] fuel (pair_init sc rc f F) in
+    r_phase (p_r p) = RDone OutOk /\ written_bytes (w_file (r_w (p_r p))) = F /\ s_phase (p_s p) = SDone OutOk.
+  Proof.
+    intros is Hsp. cbv zeta. destruct (init_emit (map (fun i => (i, NfDrop)) is)) as (s0 & -> & Hss).
+    apply (data_drops_from_emit (map (fun i => (i, NfDrop)) is) [] (N.to_nat nb) is s0 (recv_init rc) 0 [] 0 0); try assumption; try lia.
+    - exact recv_init_RS.
+    - intros k _. apply fault_at_drops.
+    - apply nil_clean.
+  Qed.
+
+  (** Any number of lost ACKs, any two of them more than a window of datagrams apart: the receiver
+      completes with exactly the file; so does the sender, unless the last datagram the receiver
+      ever sent is among the lost ones (the final ACK). *)
+  Theorem cosim_ack_drops : forall is, spaced ws 0 is -> exists fuel,
+    let f := map (fun i => (i, NfDrop)) is in
+    let p := pair_run sc rc [] f fuel (pair_init sc rc [] F) in
+    r_phase (p_r p) = RDone OutOk /\ written_bytes (w_file (r_w (p_r p))) = F /\
+    (s_phase (p_s p) = SDone OutOk \/ In (ch_n (p_rs p) - 1) is).
+  Proof.
+    intros is Hsp. cbv zeta. destruct (init_emit []) as (s0 & -> & Hss).
+    pose proof (SS_len _ _ _ Hss) as (_ & _ & Hpos).
+    rewrite emit_clean by (intros i Hi; reflexivity).
+    destruct (ack_drops_from_sync [] (map (fun i => (i, NfDrop)) is) (N.to_nat nb) is s0 (recv_init rc) 0 [] (0 + wlen s0) 0 O)
+      as (fuel & [H1 H2] & H3); try assumption; try lia.
+    - exact recv_init_RS.
+    - intros k _. apply fault_at_drops.
+    - apply nil_clean.
+    - exists fuel. split; [exact H1|]. split; [exact H2|exact H3].
   Qed.
 End Live.
 
